@@ -126,17 +126,29 @@ func CheckPair(m *Model) (res PairResult) {
 		}
 	}
 	exp := m.expect()
-	expTexts := map[string]string{}
-	var expNames []string
 	for _, ef := range exp {
-		expTexts[ef.Name] = ef.Text
-		expNames = append(expNames, ef.Name)
 		res.Files["expected/"+ef.Name] = ef.Text
 		if ef.Touched && ef.Survivors == 0 {
 			res.Emptied++
 		}
 	}
-	res.Files["IMPORTPATH"] = m.ImportPath + "\n"
+	checkTexts(m.ImportPath, names, texts, exp, &res)
+	return
+}
+
+// checkTexts is the model-independent core: given both inputs and the expected merged files
+// (as source text), run the real augmentation and compare. names[side] are file names in
+// input order; exp lists the expected files, overlay files first.
+func checkTexts(importPath string, names [2][]string, texts [2]map[string]string, exp []ExpFile, resp *PairResult) {
+	res := PairResult{Files: resp.Files, Emptied: resp.Emptied}
+	defer func() { *resp = res }()
+	expTexts := map[string]string{}
+	var expNames []string
+	for _, ef := range exp {
+		expTexts[ef.Name] = ef.Text
+		expNames = append(expNames, ef.Name)
+	}
+	res.Files["IMPORTPATH"] = importPath + "\n"
 
 	// the expectation must be a well-formed package, otherwise the generator made a mistake
 	efset := token.NewFileSet()
@@ -183,7 +195,7 @@ func CheckPair(m *Model) (res PairResult) {
 				res.Symptoms = append(res.Symptoms, Symptom{"panic", fmt.Sprintf("augmentation panicked: %v", r)})
 			}
 		}()
-		merged = build.VerifAugment(m.ImportPath, over, orig)
+		merged = build.VerifAugment(importPath, over, orig)
 	}()
 	if merged == nil {
 		return
@@ -444,6 +456,7 @@ func Run(c *core.Ctx) int {
 		c.Sample(map[string]any{"pair": fmt.Sprintf("main/%d", i), "import_path": m.ImportPath, "entities": labels})
 	}
 
+	nSent := runSentinels(c)
 	std := runStd(c)
 
 	distinct := len(hist)
@@ -458,7 +471,7 @@ func Run(c *core.Ctx) int {
 		"distinct_full_combinations":      distinct,
 		"std":                             std,
 	}
-	evaluations := pairs + std.Compared
+	evaluations := pairs + std.Compared + nSent
 	return c.Finish("exploration", evaluations, distinct, 150,
 		"pairs (original files, overlay files) rendered from a declarative model; the expected merged package is computed from the model with the rules of doc/pargma.md and compared (per file: ordered entity tuples (kind,key,body,signature,go-directives,const value), import lists, file order) with what the real augmentOverlayFile/augmentOriginalFile/pruneImports produce; merged package type-checked; printed form re-parsed and compared; plus every overlay-bearing std package through the real Session.LoadPackages vs the hook replica vs an independent rule evaluator. distinct_nontrivial = distinct (kind, origin, directive, grouping-original, grouping-overlay) combinations of generated entities",
 		extra, []string{
